@@ -168,21 +168,28 @@ Proof.
     apply post_bind; intros ok2 s2 _. apply post_ret; exact HB.
 Qed.
 
-Lemma hb_write_back : forall unk freqs ps pv s,
-  post (write_back freqs ps unk pv) s (fun r _ => let '(_, ps', _) := r in (forall j, hcount ps' j = hcount ps j) /\ length ps' = length ps).
+Lemma hb_commit : forall unk freqs ps nf pv s,
+  post (commit freqs ps unk nf pv) s (fun r _ => (forall j, hcount (fst r) j = hcount ps j) /\ length (fst r) = length ps).
 Proof.
-  induction unk as [|u rest IH]; intros freqs ps pv s; simpl; [apply post_ret; auto|].
-  destruct pv as [|g pv']; [apply post_fail|].
+  induction unk as [|u rest IH]; intros freqs ps nf pv s; simpl; [apply post_ret; auto|].
+  destruct nf as [|f nf']; [apply post_fail|]. destruct pv as [|g pv']; [apply post_fail|].
   assert (Hu : forall p', pheld p' = pheld (nth u ps pdummy) -> forall j, hcount (upd ps u p') j = hcount ps j).
   { intros p' Hp j. destruct (Nat.ltb_spec u (length ps)).
     - rewrite hcount_upd by auto. destruct (Nat.eq_dec u j) as [->|]; auto.
     - rewrite upd_short by lia. reflexivity. }
-  apply post_bind; intros u1 s1 _. apply post_bind. intros [[fv fn]|] s2 _.
-  - apply post_bind; intros u3 s3 _. apply post_bind. intros [[ok ps'] pv''] s4 E4.
-    destruct (IH freqs _ pv' s3 _ _ E4) as [H1 H2]. apply post_ret. split.
-    + intro j. rewrite H1. apply Hu; reflexivity.
-    + rewrite H2. apply length_upd2.
-  - apply post_ret. split; [apply Hu; reflexivity | apply length_upd2].
+  apply post_bind; intros u1 s1 _. apply post_bind; intros fv s2 _. apply post_bind; intros u3 s3 _.
+  intros [ps' pv''] s4 E4. destruct (IH freqs _ nf' pv' s3 _ _ E4) as [H1 H2]. simpl in *. split.
+  - intro j. rewrite H1. apply Hu; reflexivity.
+  - rewrite H2. apply length_upd2.
+Qed.
+
+Lemma hb_write_back : forall unk freqs ps pv s,
+  post (write_back freqs ps unk pv) s (fun r _ => let '(_, ps', _) := r in (forall j, hcount ps' j = hcount ps j) /\ length ps' = length ps).
+Proof.
+  intros unk freqs ps pv s. unfold write_back. apply post_bind. intros [ok nf] s1 _.
+  destruct (negb ok).
+  - apply post_bind; intros u s2 _. apply post_ret; auto.
+  - apply post_bind. intros [ps' pv'] s2 E2. destruct (hb_commit _ _ _ _ _ _ _ _ E2) as [H1 H2]. apply post_ret. simpl in *. auto.
 Qed.
 
 Lemma HBv_ps : forall G v v' ps ps', HBv G v ps -> keys v' = keys v -> vn_tab v' = vn_tab v -> vn_nodes v' = vn_nodes v ->
@@ -196,6 +203,7 @@ Qed.
 
 Arguments allocl : simpl never.
 Arguments write_back : simpl never.
+Arguments commit : simpl never.
 
 Lemma hb_solve : forall G v ps body trl fails s, HBv G v ps ->
   post (solve NFixed v ps body trl fails) s (fun r _ => HBr G ps r).
@@ -412,3 +420,45 @@ Theorem release_no_underflow : forall w h v, HBW w -> nth h (w_new w) None = Som
 Proof.
   intros w h v HW Hh j. destruct (hbw_take w h v HW Hh) as [H1 _]. rewrite H1. lia.
 Qed.
+
+(* ---------------------------------------------------------------- vnacal_new_solve is atomic (DI92) *)
+Lemma wb_fail_same : forall unk freqs ps pv s,
+  post (write_back freqs ps unk pv) s (fun r _ => let '(ok, ps', pv') := r in ok = false -> ps' = ps /\ pv' = pv).
+Proof.
+  intros unk freqs ps pv s. unfold write_back. apply post_bind. intros [ok nf] s1 _.
+  destruct (negb ok).
+  - apply post_bind; intros u s2 _. apply post_ret; auto.
+  - apply post_bind. intros [ps' pv'] s2 _. apply post_ret. simpl. discriminate.
+Qed.
+
+(* every outcome of vnacal_new_solve other than success - a refused call, any failing request incl. those of the write-back, a kernel
+   that gives up - leaves the vnacal_new_t and every parameter (holds, frequency and gamma vectors) exactly as they were *)
+Lemma solve_atomic_lemma : forall v ps body trl fails s,
+  post (solve NFixed v ps body trl fails) s (fun r _ => let '(v', ps', out) := r in out <> Done -> v' = v /\ ps' = ps).
+Proof.
+  intros v ps body trl fails s. unfold solve. cbv zeta.
+  assert (Hsame : forall e, (let '(v', ps', out) := (v, ps, Err e) in out <> Done -> v' = v /\ ps' = ps)) by (intros e _; auto).
+  destruct (negb (vn_fvalid v)); [apply post_ret; apply Hsame|].
+  apply post_bind. intros [ok0 sm0] s0 _. destruct (negb ok0); [apply post_ret; apply Hsame|].
+  apply post_bind. intros [ok1 sm] s1 _. destruct (negb ok1); [apply post_bind; intros u s2 _; apply post_ret; apply Hsame|].
+  apply post_bind. intros [ok2 sl] s2 _.
+  destruct (negb ok2); [apply post_bind; intros u s3 _; apply post_bind; intros u' s4 _; apply post_ret; apply Hsame|].
+  apply post_bind. intros [ok3 sp] s3 _.
+  destruct (negb ok3); [apply post_bind; intros u s4 _; apply post_ret; apply Hsame|].
+  apply post_bind. intros [ok4 cal] s4 _.
+  destruct (negb ok4); [apply post_bind; intros u s5 _; apply post_bind; intros u' s6 _; apply post_ret; apply Hsame|].
+  apply post_bind. intros [ok5 tb] s5 _.
+  destruct (negb ok5); [apply post_bind; intros u s6 _; apply post_bind; intros u' s7 _; apply post_ret; apply Hsame|].
+  apply post_bind. intros [ok6 tm] s6 _. apply post_bind; intros u6 s7 _.
+  destruct (negb ok6); [apply post_bind; intros u s8 _; apply post_bind; intros u' s9 _; apply post_bind; intros u'' s10 _; apply post_ret; apply Hsame|].
+  destruct fails; [apply post_bind; intros u s8 _; apply post_bind; intros u' s9 _; apply post_bind; intros u'' s10 _; apply post_ret; apply Hsame|].
+  apply post_bind. intros [[okw ps'] pv'] s8 E8. pose proof (wb_fail_same _ _ _ _ _ _ _ E8) as Hw. simpl in Hw.
+  destruct okw; simpl.
+  - apply post_bind; intros u s9 _; apply post_bind; intros u' s10 _; apply post_bind; intros u'' s11 _. apply post_ret. intro H; congruence.
+  - apply post_bind; intros u s9 _; apply post_bind; intros u' s10 _; apply post_bind; intros u'' s11 _. apply post_ret.
+    intros _. destruct (Hw eq_refl) as [H1 _]. auto.
+Qed.
+
+Theorem new_solve_atomic_lemma : forall v ps body trl fails s v' ps' out s',
+  solve NFixed v ps body trl fails s = Ok ((v', ps', out), s') -> out <> Done -> v' = v /\ ps' = ps.
+Proof. intros v ps body trl fails s v' ps' out s' E. exact (solve_atomic_lemma v ps body trl fails s _ _ E). Qed.
